@@ -132,6 +132,23 @@ def tree_cases(ctx, lines, expect):
         expect.append(after)
         ctx.count(f"tree:filter={'yes' if filt is not None else 'no'}:acts={'yes' if aq else 'no'}")
         ctx.nontriv((before, None if filt is None else tuple(fids), wq, aq))
+        # the property, stated directly: a module is replaced iff it is eligible and selected; everything else is the same object
+        from optimum.quanto.nn import QModuleMixin
+        after_mods = dict(model.named_modules())
+        for n_, m0 in mods.items():
+            if n_ == "" or n_ not in after_mods:
+                continue
+            eligible = isinstance(m0, (torch.nn.Linear, torch.nn.Conv2d)) or (isinstance(m0, torch.nn.LayerNorm) and aq is not None)
+            selected = filt is None or any(m0 is f for f in filt)
+            m1 = after_mods[n_]
+            swapped = isinstance(m1, QModuleMixin) and not isinstance(m0, QModuleMixin)
+            if swapped and not (eligible and selected):
+                ctx.spec_failures.append(("C08:module-replaced-although-" + ("not-selected" if eligible else "not-eligible"),
+                                          {"tree": before, "module": n_, "filter": None if filt is None else chosen, "weights": wq, "activations": aq}))
+            elif eligible and selected and not swapped:
+                ctx.spec_failures.append(("C08:selected-eligible-module-not-replaced", {"tree": before, "module": n_, "filter": None if filt is None else chosen, "weights": wq, "activations": aq}))
+            elif not swapped and m1 is not m0:
+                ctx.spec_failures.append(("C08:untouched-module-is-another-object", {"tree": before, "module": n_}))
         # names, parameters, hyper-parameters, dtype, device
         if [n_ for n_, _ in model.named_modules()] != names:
             ctx.spec_failures.append(("C08:module-names-changed", {"tree": before}))
